@@ -122,6 +122,7 @@ fn generate(seed: u64, tier: Tier, em: &mut Emitter) {
             }
         }
         let mode = if rng.chance(1, 5) { Mode::Seq } else { Mode::Par(parts) };
+        let mode = maybe_auto(&mut rng, &steps, mode, 8);
         emit_prog(em, &src, &steps, mode, true, &["random"]);
         made += 1;
         spread.step(em);
